@@ -192,13 +192,42 @@ static std::string whitenOp(Args& A, bool zca){
 		double s = b(a); for(std::size_t j = 0; j < T.d; ++j) s += W(a, j) * T.rows[i][j]; y[i][a] = s; }
 	std::vector<double> ym, yv; plainMeanVar(y, r, ym, yv);
 	double wscale = 0; for(std::size_t a = 0; a < r; ++a) for(std::size_t j = 0; j < T.d; ++j) wscale = std::max(wscale, std::fabs(W(a, j)));
+	// rank of the input covariance by plain Gaussian elimination with full pivoting
+	std::size_t rank = 0;
+	{ std::vector<double> xm, xv; plainMeanVar(T.rows, T.d, xm, xv);
+	  std::vector<std::vector<double> > Cx(T.d, std::vector<double>(T.d, 0.0)); double big = 0;
+	  for(std::size_t i = 0; i < T.n; ++i) for(std::size_t a = 0; a < T.d; ++a) for(std::size_t c = 0; c < T.d; ++c) Cx[a][c] += (T.rows[i][a] - xm[a]) * (T.rows[i][c] - xm[c]) / (double)T.n;
+	  for(std::size_t a = 0; a < T.d; ++a) big = std::max(big, Cx[a][a]);
+	  std::vector<bool> usedR(T.d, false), usedC(T.d, false);
+	  for(std::size_t step = 0; step < T.d; ++step){
+		std::size_t pr = 0, pc = 0; double best = 0;
+		for(std::size_t a = 0; a < T.d; ++a) if(!usedR[a]) for(std::size_t c = 0; c < T.d; ++c) if(!usedC[c] && std::fabs(Cx[a][c]) > best){ best = std::fabs(Cx[a][c]); pr = a; pc = c; }
+		if(!(best > 1e-9 * (big + 1e-300))) break;
+		usedR[pr] = usedC[pc] = true; ++rank;
+		for(std::size_t a = 0; a < T.d; ++a) if(a != pr){ double f = Cx[a][pc] / Cx[pr][pc]; for(std::size_t c = 0; c < T.d; ++c) Cx[a][c] -= f * Cx[pr][c]; }
+	  } }
+	if(!zca && r != rank) o.fail("whitening-rank");
+	std::vector<std::vector<double> > Cy(r, std::vector<double>(r, 0.0));
 	for(std::size_t a = 0; a < r; ++a){
 		if(!(std::fabs(ym[a]) <= 1e-8 * (1 + wscale * 64))) o.fail("whitening-mean");
 		for(std::size_t c = 0; c < r; ++c){
 			double s = 0; for(std::size_t i = 0; i < T.n; ++i) s += (y[i][a] - ym[a]) * (y[i][c] - ym[c]);
-			s /= (double)T.n;
-			if(!(std::fabs(s - (a == c ? target : 0.0)) <= 1e-7 * (1 + target))) o.fail(zca ? "zca-covariance" : "whitening-covariance");
+			Cy[a][c] = s / (double)T.n;
 		}
+	}
+	if(!zca || rank == T.d){
+		// covariance of the transformed training data = target * identity
+		for(std::size_t a = 0; a < r; ++a) for(std::size_t c = 0; c < r; ++c)
+			if(!(std::fabs(Cy[a][c] - (a == c ? target : 0.0)) <= 1e-7 * (1 + target))) o.fail(zca ? "zca-covariance" : "whitening-covariance");
+	}else{
+		// singular covariance: ZCA can only whiten the subspace the data varies in; the output covariance
+		// must be target * (orthogonal projector of rank `rank`): Cy*Cy = target*Cy, trace = target*rank
+		double tr = 0;
+		for(std::size_t a = 0; a < r; ++a){ tr += Cy[a][a]; for(std::size_t c = 0; c < r; ++c){
+			double s = 0; for(std::size_t k = 0; k < r; ++k) s += Cy[a][k] * Cy[k][c];
+			if(!(std::fabs(s - target * Cy[a][c]) <= 1e-7 * (1 + target * target))) o.fail("zca-covariance-singular");
+		} }
+		if(!(std::fabs(tr - target * (double)rank) <= 1e-7 * (1 + target) * (double)T.d)) o.fail("zca-covariance-singular");
 	}
 	return o.line("ok", inexact);
 }
